@@ -365,6 +365,13 @@ class C09(Prop):
                 q = rng.choice(['`', '``'])
                 src = head + pre + q + content + q + post
                 exp = '<p>' + esc(pre.replace('\\', '')) + '<code>' + esc(content) + '</code>' + esc(post) + '</p>'
+                if rng.random() < 0.2 and not any(ch in content for ch in '*_~') and '\\' not in pre:
+                    # the code quote inside an emphasis span, with replaced elements earlier in the paragraph
+                    lead_s, lead_h = rng.choice([('http://u.v/ ', '<a href="http://u.v/">http://u.v/</a> '), ('&copy; [c](http://d.e/) ', '&copy; <a href="http://d.e/">c</a> '),
+                                                 ('', '')])
+                    d, tag = rng.choice([('*', 'em'), ('**', 'strong'), ('~~', 'del'), ('_', 'em')])
+                    src = head + lead_s + d + 'see ' + q + content + q + ' here' + d
+                    exp = '<p>' + lead_h + '<%s>see <code>%s</code> here</%s></p>' % (tag, esc(content), tag)
             else:
                 lines = [l for l in markup_soup(rng, ctx.repo) if l.strip() != '']
                 if not lines:
@@ -734,10 +741,18 @@ class C10(Prop):
                 mk2 = rng.choice([mk, mk, '***' if mk != '***' else '-'])
                 tag2 = LIST_TAGS[mk2[0]]
                 second = 'U%s c' % mk2 if tag2 == 'dl' else '%s c' % mk2
-                blanks = [''] * rng.randint(2, 4)
-                lines = [first] + al + blanks + [second]
+                if form == 5 and rng.random() < 0.5:
+                    al, ah = rng.choice([(['<hr>', ''], '<hr>'), (['<br class="x">', ''], '<br class="x">'), (['<input type="text">', ''], '<input type="text">')])
+                blanks = [''] * rng.randint(1, 4)
                 item = (lambda t, tm, body: '<dt>%s</dt><dd>%s</dd>' % (tm, body) if t == 'dl' else '<li>%s</li>' % body)
-                html = '<%s>%s</%s><%s>%s</%s>' % (tag, item(tag, 'T', 'a' + ah), tag, tag2, item(tag2, 'U', 'c'), tag2)
+                if len(blanks) == 1:
+                    # one blank line (after the one that closes a blank-terminated block, if any): the list goes on
+                    mk2, tag2 = mk, tag
+                    second = 'U%s c' % mk2 if tag2 == 'dl' else '%s c' % mk2
+                    html = '<%s>%s%s</%s>' % (tag, item(tag, 'T', 'a' + ah), item(tag2, 'U', 'c'), tag)
+                else:
+                    html = '<%s>%s</%s><%s>%s</%s>' % (tag, item(tag, 'T', 'a' + ah), tag, tag2, item(tag2, 'U', 'c'), tag2)
+                lines = [first] + al + blanks + [second]
                 g.kinds.add('blank-lines-end-list')
                 yield {'src': '\n'.join(lines), 'expected': html, 'safeMode': mode, 'kinds': sorted(g.kinds)}
                 continue
